@@ -106,6 +106,39 @@ def _get_source(target, cls, fields, label):
 _get_source(PKG + ".get_source", PKG, lambda c: dict(paths="BASES", ext=c.str("ext"), encoding=c.str("encoding")), "PackageLoader.get_source")
 _get_source(PKG + ".get_source_async", PKG, lambda c: dict(paths="BASES", ext=c.str("ext"), encoding=c.str("encoding")), "PackageLoader.get_source_async")
 
+# ---- the options the containment contracts above depend on really are the options the
+# ---- constructor was given, for the plain and the caching file-system loader
+
+def _ctor(target, label, extra_kw):
+    @contract(target, prop="C22", name=label)
+    def ct(c):
+        enc, ext, rs = c.str("encoding"), c.any("ext"), c.bool("reject_symlinks")
+        c.requires(U.is_none(ext.t), "no default extension (with_suffix validation is a pathlib call)")
+        self = c.obj(target.rsplit(".", 1)[0], "loader")
+        sp = c.str("search_path")
+        c.summary("liquid.builtin.loaders.mixins:CachingLoaderMixin.__init__", lambda eng, st, a, k: [(st, NONE)])
+        kw = dict(encoding=enc, ext=ext, reject_symlinks=rs)
+        kw.update(extra_kw(c))
+        if "Caching" in target:
+            c.call(sp, enc, ext, self_val=self, **{k: v for k, v in kw.items() if k not in ("encoding", "ext")})
+        else:
+            c.call(sp, self_val=self, **kw)
+
+        def post(r):
+            f = r.st.deref(self).fields
+            if not all(k in f for k in ("reject_symlinks", "encoding", "ext", "search_path")):
+                return z3.BoolVal(False)
+            return z3.And(box(f["reject_symlinks"]) == U.bool(rs.t), box(f["encoding"]) == U.str(enc.t), box(f["ext"]) == ext.t)
+        c.ensures("the-loader-holds-exactly-the-options-it-was-given(reject_symlinks,encoding,ext)", post)
+        c.raises()
+        c.replay("code", code=REPLAY_CTOR)
+
+
+_ctor(FS + ".__init__", "FileSystemLoader.__init__[options stored]", lambda c: {})
+_ctor("liquid.builtin.loaders.caching_file_system_loader:CachingFileSystemLoader.__init__", "CachingFileSystemLoader.__init__[options reach the file-system loader]",
+      lambda c: dict(auto_reload=c.bool("auto_reload"), namespace_key=c.str("namespace_key"), capacity=c.int("capacity")))
+
+
 @structural("C22", "constructor-forwarding")
 def ctor_forwarding():
     """loader constructors hand each option to the option of the same name: a keyword `k=<p>`
